@@ -362,17 +362,118 @@ Proof.
   - intros k _ _ _ _. rewrite alookup_aset_other; [reflexivity|discriminate].
 Qed.
 
+Lemma untouched_decorated parent ls ans st : untouched (decorated parent ls ans st) parent.
+Proof.
+  unfold decorated.
+  assert (H : untouched (set_annots (set_labels parent ls) ans) parent).
+  { eapply untouched_trans; [apply untouched_set_annots|]. apply untouched_set_labels. }
+  destruct (is_null st); [exact H|]. eapply untouched_trans; [apply untouched_set_status|exact H].
+Qed.
+
 Lemma untouched_target_body c parent p rv strip : untouched (target_body c parent p rv strip) parent.
 Proof.
-  unfold target_body, decorated.
-  assert (H0 : untouched (set_status (set_annots (set_labels parent (tp_labels p)) (tp_annots p)) (tp_status p)) parent).
-  { eapply untouched_trans; [apply untouched_set_status|].
-    eapply untouched_trans; [apply untouched_set_annots|]. apply untouched_set_labels. }
+  unfold target_body.
+  pose proof (untouched_decorated parent (tp_labels p) (tp_annots p) (tp_status p)) as H0.
   assert (H1 : untouched (match rv with
-                          | Some v => set_rv (set_status (set_annots (set_labels parent (tp_labels p)) (tp_annots p)) (tp_status p)) v
-                          | None => set_status (set_annots (set_labels parent (tp_labels p)) (tp_annots p)) (tp_status p) end) parent).
+                          | Some v => set_rv (decorated parent (tp_labels p) (tp_annots p) (tp_status p)) v
+                          | None => decorated parent (tp_labels p) (tp_annots p) (tp_status p) end) parent).
   { destruct rv; [eapply untouched_trans; [apply untouched_set_rv|exact H0]|exact H0]. }
   destruct strip; [eapply untouched_trans; [apply untouched_strip_finalizer|exact H1]|exact H1].
+Qed.
+
+(* ---- the status key: the metadata setters never touch a top-level key other than "metadata" ---- *)
+Definition top_kept (a b : json) : Prop :=
+  forall k, k <> "metadata" -> alookup k (obj_map a) = alookup k (obj_map b).
+
+Lemma top_kept_refl o : top_kept o o.
+Proof. intros k _. reflexivity. Qed.
+
+Lemma top_kept_trans a b c : top_kept a b -> top_kept b c -> top_kept a c.
+Proof. intros H1 H2 k Hk. rewrite H1, H2; auto. Qed.
+
+Lemma top_kept_meta_set (m : amap) f v m' : nested_set m ["metadata"; f] v = Some m' -> top_kept (JObj m') (JObj m).
+Proof.
+  rewrite nested_set2. intros Hs k Hk. cbn [obj_map].
+  destruct (alookup "metadata" m) as [[| | | | | |l|mm]|]; try discriminate; injection Hs as <-;
+    apply alookup_aset_other; exact Hk.
+Qed.
+
+Lemma top_kept_set_smap_at o f m : top_kept (set_smap_at o ["metadata"; f] m) o.
+Proof.
+  unfold set_smap_at. destruct o as [| | | | | | |om]; try apply top_kept_refl.
+  destruct (nested_set om _ _) as [om'|] eqn:E; [|apply top_kept_refl]. eapply top_kept_meta_set; eauto.
+Qed.
+
+Lemma top_kept_set_rv o v : top_kept (set_rv o v) o.
+Proof.
+  unfold set_rv. destruct o as [| | | | | | |om]; try apply top_kept_refl.
+  destruct (nested_set om _ _) as [om'|] eqn:E; [|apply top_kept_refl]. eapply top_kept_meta_set; eauto.
+Qed.
+
+Lemma top_kept_set_finalizers o fs : top_kept (set_finalizers o fs) o.
+Proof.
+  unfold set_finalizers. destruct o as [| | | | | | |om]; try apply top_kept_refl.
+  destruct (nested_set om _ _) as [om'|] eqn:E; [|apply top_kept_refl]. eapply top_kept_meta_set; eauto.
+Qed.
+
+Lemma top_kept_remove_finalizers om : top_kept (JObj (nested_remove om ["metadata"; "finalizers"])) (JObj om).
+Proof.
+  rewrite nested_remove2.
+  destruct (alookup "metadata" om) as [[| | | | | |l|mm]|]; try apply top_kept_refl.
+  intros k Hk. cbn [obj_map]. apply alookup_aset_other. exact Hk.
+Qed.
+
+Lemma top_kept_strip_finalizer f o : top_kept (strip_finalizer f o) o.
+Proof.
+  unfold strip_finalizer.
+  destruct (nested_get (obj_map o) ["metadata"; "finalizers"]) as [[| | | | | |l|mm]| |];
+    try (destruct o as [| | | | | | |om]; [apply top_kept_refl..|apply top_kept_remove_finalizers]).
+  destruct (forallb _ l).
+  - apply top_kept_set_finalizers.
+  - destruct o as [| | | | | | |om]; [apply top_kept_refl..|apply top_kept_remove_finalizers].
+Qed.
+
+(* a null status in the response never changes what is stored under "status": not the value, and not
+   whether the key exists (the repaired defect: an absent status used to become an explicit null) *)
+Theorem C16_null_status_keeps_status_key :
+  forall (c : dcfg) (parent st : json) (r : dresp) (rv : option string) (strip : bool),
+    status_map parent = Some st ->
+    is_null (dr_status r) = true ->
+    alookup "status" (obj_map (target_body c parent (plan_target parent st r) rv strip)) =
+    alookup "status" (obj_map parent).
+Proof.
+  intros c parent st r rv strip Hst Hnull.
+  assert (Hps : tp_status (plan_target parent st r) = st).
+  { unfold plan_target. rewrite Hnull.
+    destruct (update_string_map (get_labels parent) (dr_labels r)).
+    destruct (update_string_map (annots_of parent) (dr_annotations r)). reflexivity. }
+  assert (Hdec : alookup "status" (obj_map (decorated parent (tp_labels (plan_target parent st r))
+                                                     (tp_annots (plan_target parent st r)) st)) =
+                 alookup "status" (obj_map parent)).
+  { unfold decorated.
+    assert (Hm : top_kept (set_annots (set_labels parent (tp_labels (plan_target parent st r)))
+                                      (tp_annots (plan_target parent st r))) parent).
+    { eapply top_kept_trans; [apply top_kept_set_smap_at|apply top_kept_set_smap_at]. }
+    unfold status_map in Hst.
+    destruct (alookup "status" (obj_map parent)) as [sv|] eqn:Es.
+    - destruct sv; try discriminate. injection Hst as <-. cbn [is_null].
+      unfold set_status.
+      destruct (set_annots _ _) as [| | | | | | |om] eqn:Eo.
+      1-7: rewrite <- Es; apply Hm; discriminate.
+      cbn [obj_map]. apply alookup_aset_same.
+    - injection Hst as <-. cbn [is_null]. rewrite <- Es. apply Hm. discriminate. }
+  unfold target_body. rewrite Hps.
+  assert (H1 : top_kept (match rv with
+                         | Some v => set_rv (decorated parent (tp_labels (plan_target parent st r))
+                                                       (tp_annots (plan_target parent st r)) st) v
+                         | None => decorated parent (tp_labels (plan_target parent st r))
+                                             (tp_annots (plan_target parent st r)) st end)
+                        (decorated parent (tp_labels (plan_target parent st r)) (tp_annots (plan_target parent st r)) st)).
+  { destruct rv; [apply top_kept_set_rv|apply top_kept_refl]. }
+  rewrite <- Hdec.
+  destruct strip.
+  - rewrite (top_kept_strip_finalizer _ _ "status") by discriminate. apply H1. discriminate.
+  - apply H1. discriminate.
 Qed.
 
 Theorem C16_spec_untouched :
@@ -1073,3 +1174,5 @@ Proof.
   eapply C16_sync_call_summary. exact Hp.
 Qed.
 Print Assumptions C16_sync_trace.
+
+Print Assumptions C16_null_status_keeps_status_key.
